@@ -683,6 +683,8 @@ pub async fn handle_changes(
         counter!("corro.agent.changes.recv").increment(std::cmp::max(change_len, 1) as u64); // count empties...
 
         if change.actor_id == agent.actor_id() {
+            #[cfg(feature = "verif-hooks")]
+            klukai_types::verif::point("hc.own_actor_ignored");
             continue;
         }
 
